@@ -142,3 +142,40 @@ CHECKS.update({
             "assumptions": ["relational: the same concrete data with the same Flush position, written in one piece vs split at a symbolic point p (every p in [F, L], case-split by the solver) with an extra zero-length Write",
                             "window W=16 instances of the parametric dynCompressor (buffer 2W+261 bytes); W in {4096, 32768} is not explored for every split point"]},
 })
+
+
+def gz(harness, picks, params, labels, covers=(), pkg=GZIP, tiers=("quick", "thorough"), thorough=None, validate=True):
+    r = {"pkg": pkg, "harness": harness, "picks": dict(picks), "params": dict(params), "tiers": list(tiers), "labels": labels,
+         "covers": list(covers), "validate": validate}
+    if thorough:
+        r["thorough"] = thorough
+    return r
+
+
+GZ_WRITE = [gz("VerifGzWrite", {"level": lv, "ops": ops, "extra": ex}, {"NAME": nm, "COMMENT": cm, "EXTRA": 1, "P": p}, ["C06:"], ["written"])
+            for (lv, ops, ex, nm, cm, p) in [(0, 0, 1, 1, 1, 2), (0, 1, 0, 2, 0, 2), (0, 2, 0, 0, 1, 0), (0, 3, 1, 1, 0, 2), (1, 1, 0, 1, 1, 4), (2, 0, 1, 0, 0, 4), (3, 1, 0, 1, 0, 4)]]
+ZL_WRITE = [gz("VerifZlWrite", {"level": lv, "dict": d, "ops": ops}, {"P": p}, ["C06:"], ["written"], pkg=ZLIB)
+            for (lv, d, ops, p) in [(0, 0, 1, 2), (0, 1, 0, 2), (1, 0, 1, 4), (2, 0, 0, 4), (3, 1, 3, 4), (4, 0, 2, 0), (5, 0, 1, 4), (5, 1, 0, 4)]]
+
+CHECKS.update({
+    "C06": {"level": "model_checking",
+            "runs": GZ_WRITE + ZL_WRITE +
+                    [gz("VerifGzHdrRead", {}, {"X": 4}, ["C06:"], ["accepted", "rejected"], thorough={"X": 5}),
+                     gz("VerifZlRead", {"dict": 0, "hdrsym": 1}, {"N": 2, "M": 8, "B": 4}, ["C06:"], ["rejected"], pkg=ZLIB, validate=False),
+                     gz("VerifZlRead", {"dict": 0, "hdrsym": 0}, {"N": 3, "M": 8, "B": 4}, ["C06:"], ["eof"], pkg=ZLIB, validate=False),
+                     gz("VerifZlRead", {"dict": 1, "hdrsym": 0}, {"N": 3, "M": 8, "B": 3}, ["C06:"], ["eof"], pkg=ZLIB, validate=False),
+                     gz("VerifGzDiff", {"shape": 0, "multi": 0}, {"G": 0}, ["C06:", "C08:"], ["default-mode"], validate=False)],
+            "assumptions": ["interop is decided differentially: fastgo's and the standard library's Writer/Reader are both executed by the engine on the same symbolic header fields / container bytes",
+                            "CRC-32 and Adler-32 are uninterpreted folds F(h, byte): that the right bytes are folded in the right order is decided, the checksum arithmetic is not",
+                            "writer direction: level 0 (stored) compares the whole output with a symbolic payload; other levels compare header and trailer bytes around a concrete payload"]},
+    "C07": {"level": "model_checking",
+            "runs": [gz("VerifGzBody", {"multi": m}, {"N": n, "M": 8, "B": b}, ["C07:"], ["eof", "truncated", "header-error"], validate=False) for (m, n, b) in [(0, 3, 4), (1, 3, 1)]] +
+                    [gz("VerifZlRead", {"dict": d, "hdrsym": 0}, {"N": 3, "M": 8, "B": 4}, ["C07:"], ["eof"], pkg=ZLIB, validate=False) for d in (0, 1)],
+            "assumptions": ["one member: concrete 10-byte header, symbolic DEFLATE payload window (reference inflater says complete), 8 (4) symbolic trailer bytes, cut at a symbolic point",
+                            "io.EOF => F-fold(delivered bytes) == trailer CRC/Adler and ISIZE == count, with F uninterpreted (a counterexample must reproduce natively with the real checksum to be reported)"]},
+    "C08": {"level": "model_checking",
+            "runs": [gz("VerifGzDiff", {"shape": sh, "multi": m}, {"G": g}, ["C08:", "C05:"], [], validate=False)
+                     for (sh, m, g) in [(0, 0, 0), (1, 0, 2), (1, 1, 2), (2, 0, 1), (2, 1, 3), (3, 0, 3), (3, 1, 3)]],
+            "assumptions": ["differential against compress/gzip's Reader on the same bytes: 1-3 members (stored payloads), symbolic trailers, symbolic trailing garbage, default mode and Multistream(false)+Reset"]},
+})
+CHECKS["C13"]["runs"] += [gz("VerifZlReset", {"dict": d, "hist": h}, {"N": 3, "M": 8}, ["C13:"], ["ran"], pkg=ZLIB, validate=False) for d in (0, 1) for h in (0, 1)]
